@@ -606,6 +606,9 @@ class ConfigParser(object):
     params = [p.strip() for p in params.split(',')]
     if not all(params):
       raise ConfigParserException("Invalid function signature found in [Potential-Form] (empty parameter name): '{0}'".format(pf))
+    # The expression library is case-insensitive: parameters 'A' and 'a' would be one and the same variable.
+    if len(set([p.lower() for p in params])) != len(params):
+      raise ConfigParserException("Parameter names in [Potential-Form] are not case-sensitive, names differing only in case found in: '{0}'".format(pf))
     return PotentialFormSignatureTuple(label, params, False)
 
   def _parse_params_section(self, section_name, parse_line_func):
